@@ -27,7 +27,14 @@ impl<'a> GetLastStateProcess<'a> {
     }
 
     pub(crate) async fn execute(self) -> Status {
-        let subscribe: bool = self.message.subscribe().into();
+        let subscribe: bool = match self.message.subscribe().as_slice()[0] {
+            0 => false,
+            1 => true,
+            _ => {
+                return StatusCode::MalformedProtocolMessage
+                    .with_context("the subscribe flag is neither 0 nor 1");
+            }
+        };
         if subscribe {
             self.nc.with_peer_mut(
                 self.peer,
